@@ -18,7 +18,7 @@ RULE = ("a hierarchy of 3-8 classes created with type(name, (Base,), {}) under A
         "Agent and Environment themselves; non-trivial = hierarchy depth >=2 with a sibling and >=1 default-tag change "
         "on a subclass followed by instantiation of that subclass, its parent and its child; distinct = sequence of "
         "(class position in the hierarchy, op, outcome)"
-        "; also: models built in mid-history (their default environment is created with Environment's default tag of that moment), classes created in mid-history (fresh / shared namespace dict / cloned from another class's __dict__), class-level operations issued from __init_subclass__ while a class is being created, model lifecycle ops, rare stress runs with hundreds of classes, one of the three component types is falsy (__len__ == 0)")
+        "; also: classes made by one class statement executed repeatedly (same module and qualified name), models built in mid-history (their default environment is created with Environment's default tag of that moment), classes created in mid-history (fresh / shared namespace dict / cloned from another class's __dict__), class-level operations issued from __init_subclass__ while a class is being created, model lifecycle ops, rare stress runs with hundreds of classes, one of the three component types is falsy (__len__ == 0)")
 COMPONENTS = {"real": ["ECAgent.Core._MetaAgent (per-class _components / _tag, add/remove/get/has_class_component, "
                        "__getitem__/__len__/__contains__, tag property)", "Agent.__init__ (default tag)", "Environment / "
                        "SpaceWorld constructors"],
@@ -26,7 +26,7 @@ COMPONENTS = {"real": ["ECAgent.Core._MetaAgent (per-class _components / _tag, a
 PROBES = ["explicit_tag_zero_with_nonzero_default", "tag_set_on_Agent_itself", "class_component_on_environment_class",
           "reject_duplicate_attach", "reject_detach_absent", "instance_component_attached", "subclass_instantiated_after_tag",
           "parent_instantiated_after_child_tag", "child_instantiated_after_parent_tag", "depth_3_chain", "sibling_isolation_checked", "class_created_mid_history", "class_cloned_from_namespace",
-          "shared_namespace_dict", "model_lifecycle_op", "many_classes", "class_level_op_inside_creation_hook", "model_built_mid_history"]
+          "shared_namespace_dict", "model_lifecycle_op", "many_classes", "class_level_op_inside_creation_hook", "model_built_mid_history", "classes_sharing_module_and_qualname"]
 TECHNIQUE = "deterministic simulation: seeded class-level attach/detach/tag histories over generated hierarchies, pristine forked process per history, per-class reference"
 LEVEL_TEXT = ("Seeded search over class hierarchies and class-level histories; after every operation, for every class in the "
               "hierarchy including Agent and Environment, class components, length, membership and default tag must equal a "
@@ -77,6 +77,14 @@ def ns(d):
 BASES = {"Agent": Agent, "Environment": Environment, "SpaceWorld": SpaceWorld}
 
 
+def make_species(base):
+    """A class factory: ONE class statement executed many times. Every call yields a distinct class; they all share module
+    and qualified name ('make_species.<locals>.Species') - which says nothing about their class-level state."""
+    class Species(base):
+        pass
+    return Species
+
+
 def generate(rng, tier):
     classes = []      # {"name", "base": index into classes or root name}
     roots = ["Agent", "Agent", "Agent", "Environment"] + (["SpaceWorld"] if rng.random() < 0.3 else [])
@@ -116,7 +124,7 @@ def generate(rng, tier):
         elif r < 0.88:
             ops.append({"op": "new", "c": c, "tag": rng.choice([None, None, None, 0, 0, 3]), "comp": rng.choice([None, None, 0, 1, 2])})
         elif r < 0.93:
-            ops.append({"op": "subclass", "c": c, "how": rng.choice(["fresh", "shared", "clone", "clone"]),
+            ops.append({"op": "subclass", "c": c, "how": rng.choice(["fresh", "shared", "clone", "clone", "factory", "factory"]),
                         "hook": {"attach": rng.choice([None, 0, 1, 2]), "tag": rng.choice([None, 3, 6])}
                         if rng.random() < 0.3 else None})
         elif r < 0.95:
@@ -299,7 +307,11 @@ def execute(sc, ctx):
                 ctx.probe("class_cloned_from_namespace")
             else:
                 PENDING["act"] = op.get("hook")
-                sub = ctx.expect_ok("create-subclass", type, f"L{len(built)}", (cls,), shared_ns if how == "shared" else ns({}))
+                if how == "factory":
+                    sub = ctx.expect_ok("create-subclass", make_species, cls)
+                    ctx.probe("classes_sharing_module_and_qualname")
+                else:
+                    sub = ctx.expect_ok("create-subclass", type, f"L{len(built)}", (cls,), shared_ns if how == "shared" else ns({}))
                 built.append((sub, i, rootkind))
                 fired, made = PENDING.pop("fired", False), PENDING.pop("made", None)
                 PENDING.pop("act", None)
